@@ -19,7 +19,7 @@ RULE = ('case = device log table, a log configuration (0..26 variables over all 
         'create/append wire hash) for accepted configurations.')
 ASSUMPTIONS = ['firmware V2 block-creation layout: entries of (type:u8, id:u16); data packet = id, 24-bit timestamp, values',
                'for table variables the stored-type nibble may be the fetch type or the table type (the firmware ignores it)']
-REQUIRED = ['mon.rejected_configs_used_anyway', 'mon.refused_configurations_started_again', 'mon.configs_accepted', 'mon.configs_rejected', 'mon.create_messages', 'mon.append_messages',
+REQUIRED = ['mon.configs_with_a_float_period', 'mon.rejected_configs_used_anyway', 'mon.refused_configurations_started_again', 'mon.configs_accepted', 'mon.configs_rejected', 'mon.create_messages', 'mon.append_messages',
             'mon.data_packets_decoded', 'mon.flag_checks', 'mon.readd_checks', 'mon.synclogger_samples',
             'mon.rejected_then_readded_on_newer_firmware', 'mon.delivered_samples_rechecked_later',
             'mon.synclogger_first_sample_right_behind_start_ack',
@@ -118,6 +118,10 @@ def run(desc, ctx):
     specs = [sp for sp in specs if not (sp[0] == 'toc' and sp[2] is None)] + \
         [sp for sp in specs if sp[0] == 'toc' and sp[2] is None]
     period = desc['period']
+    if desc['seed'] % 3 == 1:
+        # periods are often computed (1000 / rate): a float of the same value, or a fractional one
+        period = float(period) if desc['seed'] % 2 else period + 0.5
+        ctx.count('mon.configs_with_a_float_period')
 
     def plan():
         toc_type = {'%s.%s' % (g, n): t for (g, n, t) in dev.log_toc}
